@@ -131,7 +131,7 @@ theorem local_of {t : Tid} {s X s' : State} {fh fr} {H' : List Mx} {R' : List Na
     (hg : ∀ t', getG s' t' = getG X t')
     (hn : ∀ t', t' ≠ t → heldOf s' t' = heldOf X t' ∧ refsOf s' t' = refsOf X t')
     (hH : heldOf s' t = H') (hR : refsOf s' t = R')
-    (h1 : ∀ x, x ∈ fh (getG s t).held ↔ x ∈ H')
+    (h1 : ∀ x, (fh (getG s t).held).count x = H'.count x)
     (h2 : ∀ x, (fr (getG s t).refs).count x = R'.count x) : Local s' := by
   intro t'
   by_cases ht : t' = t
@@ -144,5 +144,489 @@ theorem local_of {t : Tid} {s X s' : State} {fh fr} {H' : List Mx} {R' : List Na
     refine ⟨fun x => ?_, fun x => ?_⟩
     · rw [hg, e1, e4, e2]; exact (hL t').1 x
     · rw [hg, e1, e5, e3]; exact (hL t').2 x
+
+/-! ### more `GRel` steps: a thread's program counter is set by another thread only when the thread
+is created or woken; its tables do not change then -/
+theorem GRel.setAlkT {s X fh fr} {t : Tid} (h : GRel t s X fh fr) (l : List Nat) : GRel t s (setAlkT X t l) fh fr := by
+  unfold VncModel.Threads.setAlkT; split
+  · rename_i ht; subst ht; exact h.setAlk l
+  · exact h
+
+theorem GRel.setO_idle {t s X fh fr} (h : GRel t s X fh fr) (c : Nat) (pc : OPc)
+    (h1 : heldO pc c = heldO (X.cl c).opc c) (h2 : refsO pc c = refsO (X.cl c).opc c) :
+    GRel t s (setO X c pc) fh fr :=
+  h.neutral (fun _ => getG_setO _ _ _ _)
+    (fun t' => by rw [heldOf_setO]; split
+                  · rename_i ht; subst ht; simp [heldOf, h1]
+                  · rfl)
+    (fun t' => by rw [refsOf_setO]; split
+                  · rename_i ht; subst ht; simp [refsOf, h2]
+                  · rfl)
+
+theorem GRel.setI_idle {t s X fh fr} (h : GRel t s X fh fr) (c : Nat) (pc : IPc)
+    (h1 : heldI pc c = heldI (X.cl c).ipc c) : GRel t s (setI X c pc) fh fr :=
+  h.neutral (fun _ => getG_setI _ _ _ _)
+    (fun t' => by rw [heldOf_setI]; split
+                  · rename_i ht; subst ht; simp [heldOf, h1]
+                  · rfl)
+    (fun t' => refsOf_setI _ _ _ _)
+
+theorem GRel.setLis_idle {t s X fh fr} (h : GRel t s X fh fr) (pc : CPc)
+    (h1 : heldC pc [] = heldC X.lpc []) (h2 : refsC pc [] = refsC X.lpc []) :
+    GRel t s (setC X .lis pc) fh fr :=
+  h.neutral (fun _ => getG_setC _ _ _ _)
+    (fun t' => by cases t' <;> simp [heldOf, setC, h1])
+    (fun t' => by cases t' <;> simp [refsOf, setC, h2])
+
+/-! the remembered-client list under the primitives -/
+@[simp] theorem alk_doUnlock (s : State) (t : Tid) (m : MCls) (c : Nat) : (doUnlock s t m c).alk = s.alk :=
+  (pcSame_doUnlock s t m c).2.2.1
+theorem alk_doLock {s a : State} {t : Tid} {m : MCls} {c : Nat} (h : doLock s t m c = some a) : a.alk = s.alk :=
+  (pcSame_doLock h).2.2.1
+@[simp] theorem alk_incRef (s : State) (t : Tid) (c : Nat) : (incRef s t c).alk = s.alk := (pcSame_incRef s t c).2.2.1
+@[simp] theorem alk_decRef (s : State) (t : Tid) (c : Nat) : (decRef s t c).alk = s.alk := (pcSame_decRef s t c).2.2.1
+@[simp] theorem alk_setAlkT_app (s : State) (l : List Nat) : (setAlkT s .app l).alk = l := rfl
+@[simp] theorem alk_setAlkT_lis (s : State) (l : List Nat) : (setAlkT s .lis l).alk = s.alk := rfl
+@[simp] theorem alk_raise (s : State) (f : Flag) : (raise s f).alk = s.alk := by cases f <;> rfl
+@[simp] theorem alk_raiseIf (s : State) (f : Flag) (b : Bool) : (raiseIf s f b).alk = s.alk := by
+  unfold raiseIf; split <;> simp
+@[simp] theorem alk_setN (s : State) (n : Nat) : (setN s n).alk = s.alk := rfl
+@[simp] theorem alk_setAapi (s : State) (a : Api) : (setAapi s a).alk = s.alk := rfl
+@[simp] theorem alk_setLisDown (s : State) : (setLisDown s).alk = s.alk := rfl
+@[simp] theorem alk_setLjoined (s : State) : (setLjoined s).alk = s.alk := rfl
+@[simp] theorem alk_setI (s : State) (c : Nat) (pc : IPc) : (setI s c pc).alk = s.alk := rfl
+@[simp] theorem alk_setO (s : State) (c : Nat) (pc : OPc) : (setO s c pc).alk = s.alk := rfl
+@[simp] theorem alk_signalU (s : State) (c : Nat) : (signalU s c).alk = s.alk := by unfold signalU; split <;> simp
+@[simp] theorem alk_signalD (s : State) (c : Nat) : (signalD s c).alk = s.alk := by
+  unfold signalD; simp only []; split <;> split <;> split <;> simp
+
+/-! ### legitimacy of unlock / decrement sites -/
+theorem own_of_local {s : State} (hO : OwnInv s) (hL : Local s) {t : Tid} {m : MCls} {c : Nat}
+    (h : mkey m c ∈ heldOf s t) : own s m c = some t := by
+  refine (hO.own_iff t m c).2 ?_
+  have := (hL t).1 (mkey m c)
+  have hp : 0 < (heldOf s t).count (mkey m c) := List.count_pos_iff.2 h
+  exact List.count_pos_iff.1 (by omega)
+
+theorem drop_of_getElem? {l : List Nat} {i c : Nat} (h : l[i]? = some c) : l.drop i = c :: l.drop (i + 1) := by
+  obtain ⟨hi, rfl⟩ := List.getElem?_eq_some_iff.1 h
+  exact List.drop_eq_getElem_cons hi
+
+theorem mem_refs_of_local {s : State} (hL : Local s) {t : Tid} {c : Nat} (h : c ∈ refsOf s t) :
+    c ∈ (getG s t).refs := by
+  have := (hL t).2 c
+  have hp : 0 < (refsOf s t).count c := List.count_pos_iff.2 h
+  exact List.count_pos_iff.1 (by omega)
+
+theorem refs_doLock {s a : State} {t : Tid} {m : MCls} {c : Nat} (hl : doLock s t m c = some a) (t' : Tid) :
+    (getG a t').refs = (getG s t').refs := by
+  rw [getG_doLock hl]; split
+  · rename_i h; subst h; rfl
+  · rfl
+
+/-- build the `GRel` for the inner state of a transition -/
+macro "grel" hO:ident hL:ident : tactic => `(tactic| repeat' (first
+  | (with_reducible exact GRel.refl _ _)
+  | (with_reducible apply GRel.touch)
+  | (with_reducible apply GRel.signalU)
+  | (with_reducible apply GRel.signalD)
+  | (with_reducible apply GRel.inc)
+  | (with_reducible apply GRel.raise)
+  | (with_reducible apply GRel.raiseIf)
+  | (with_reducible apply GRel.setN)
+  | (with_reducible apply GRel.setAapi)
+  | (with_reducible apply GRel.setLisDown)
+  | (with_reducible apply GRel.setLjoined)
+  | (with_reducible apply GRel.setAlkT)
+  | (with_reducible apply GRel.lock (hl := ‹doLock _ _ _ _ = some _›))
+  | (with_reducible apply GRel.unlock)
+  | (with_reducible apply GRel.dec)
+  | (with_reducible apply GRel.updCl)
+  | (with_reducible apply GRel.setO_idle)
+  | (with_reducible apply GRel.setI_idle)
+  | (with_reducible apply GRel.setLis_idle)
+  | (intro x; simp; done)
+  | (intro x; simp [Client.fresh]; done)
+  | exact own_of_local $hO $hL (by simp [heldOf, heldO, heldI, heldC, heldG, heldIt, bodyHeld, procHeld, mkey, MCls.perClient, mL, mC, getC, *])
+  | (rw [refs_doLock ‹doLock _ _ _ _ = some _›]; exact mem_refs_of_local $hL (by simp [refsOf, refsO, refsC, refsIt, bodyRefs, procRefs, getC, *]))
+  | (simp [heldO, refsO, heldI, heldC, refsC, heldG, *]; done)))
+
+macro "tablesH" hO:ident hL:ident : tactic => `(tactic| (
+  intro x
+  simp only [id, List.count_cons, List.count_erase,
+    (($hL) _).1 x, heldOf, heldO, heldI, heldG, heldC, heldIt, bodyHeld, procHeld, mkey, MCls.perClient, mL, mC, getC,
+    finished, nextIter, afterNext, alk_doUnlock, alk_incRef, alk_decRef, alk_setAlkT_app, alk_setAlkT_lis, alk_raise,
+    alk_raiseIf, alk_setN, alk_setAapi, alk_setLisDown, alk_setLjoined, alk_setI, alk_setO, alk_signalU, alk_signalD,
+    touch_alk, updCl_alk, *]
+  first | done | (simp; done) | grind | (repeat' split) <;> (first | done | (simp; done) | grind)))
+
+macro "tablesR" hL:ident : tactic => `(tactic| (
+  intro x
+  simp only [id, List.count_cons, List.count_erase,
+    (($hL) _).2 x, refsOf, refsO, refsC, refsIt, bodyRefs, procRefs, getC, finished, nextIter, afterNext,
+    alk_doUnlock, alk_incRef, alk_decRef, alk_setAlkT_app, alk_setAlkT_lis, alk_raise,
+    alk_raiseIf, alk_setN, alk_setAapi, alk_setLisDown, alk_setLjoined, alk_setI, alk_setO, alk_signalU, alk_signalD,
+    touch_alk, updCl_alk, *]
+  first | done | (simp; done) | grind | (repeat' split) <;> (first | done | (simp; done) | grind)))
+
+macro "local_step_out" hO:ident hL:ident : tactic => `(tactic| (
+  subst_vars
+  apply local_of (t := Tid.out _) $hL
+  case hg => exact fun t' => getG_setO _ _ _ _
+  case hn => exact fun t' ht => ⟨by rw [heldOf_setO, if_neg ht], by rw [refsOf_setO, if_neg ht]⟩
+  case hH => rw [heldOf_setO, if_pos rfl]
+  case hR => rw [refsOf_setO, if_pos rfl]
+  case hX => grel $hO $hL
+  case h1 => tablesH $hO $hL
+  case h2 => tablesR $hL))
+
+theorem local_out {s : State} {c : Nat} {l : Lbl} {s' : State} (hO : OwnInv s) (hL : Local s)
+    (hs : (l, s') ∈ outSucc s c) : Local s' := by
+  unfold outSucc at hs
+  split at hs
+  all_goals (try unfold storeSt at hs)
+  all_goals (try simp only [] at hs)
+  all_goals (try split at hs)
+  all_goals first
+    | (simp at hs; done)
+    | (simp at hs; crack_hyps; all_goals (local_step_out hO hL))
+
+macro "local_step_inp" hO:ident hL:ident : tactic => `(tactic| (
+  subst_vars
+  apply local_of (t := Tid.inp _) $hL
+  case hg => exact fun t' => getG_setI _ _ _ _
+  case hn => exact fun t' ht => ⟨by rw [heldOf_setI, if_neg ht], by rw [refsOf_setI]⟩
+  case hH => rw [heldOf_setI, if_pos rfl]
+  case hR => rfl
+  case hX => grel $hO $hL
+  case h1 => tablesH $hO $hL
+  case h2 => tablesR $hL))
+
+theorem local_inp {s : State} {c : Nat} {l : Lbl} {s' : State} (hO : OwnInv s) (hL : Local s)
+    (hs : (l, s') ∈ inpSucc s c) : Local s' := by
+  unfold inpSucc at hs
+  split at hs
+  all_goals (try unfold storeSt at hs)
+  all_goals (try unfold goneSucc at hs)
+  all_goals (try simp only [] at hs)
+  all_goals (try split at hs)
+  all_goals (try split at hs)
+  all_goals first
+    | (simp at hs; done)
+    | (simp at hs; crack_hyps; all_goals (local_step_inp hO hL))
+
+theorem heldOf_setC_app_ne (X : State) (pc : CPc) (t' : Tid) (h : t' ≠ .app) :
+    heldOf (setC X .app pc) t' = heldOf X t' ∧ refsOf (setC X .app pc) t' = refsOf X t' := by
+  cases t' with
+  | app => exact absurd rfl h
+  | _ => exact ⟨rfl, rfl⟩
+theorem heldOf_setC_lis_ne (X : State) (pc : CPc) (t' : Tid) (h : t' ≠ .lis) :
+    heldOf (setC X .lis pc) t' = heldOf X t' ∧ refsOf (setC X .lis pc) t' = refsOf X t' := by
+  cases t' with
+  | lis => exact absurd rfl h
+  | _ => exact ⟨rfl, rfl⟩
+
+theorem heldOf_setC_app (X : State) (pc : CPc) : heldOf (setC X .app pc) .app = heldC pc X.alk := rfl
+theorem refsOf_setC_app (X : State) (pc : CPc) : refsOf (setC X .app pc) .app = refsC pc X.alk := rfl
+theorem heldOf_setC_lis (X : State) (pc : CPc) : heldOf (setC X .lis pc) .lis = heldC pc [] := rfl
+theorem refsOf_setC_lis (X : State) (pc : CPc) : refsOf (setC X .lis pc) .lis = refsC pc [] := rfl
+
+macro "local_step_app" hO:ident hL:ident : tactic => `(tactic| (
+  subst_vars
+  try (have halk := alk_doLock ‹doLock _ _ _ _ = some _›)
+  try (have hdrop := drop_of_getElem? ‹(_ : List Nat)[_]? = some _›)
+  apply local_of (t := Tid.app) $hL
+  case hg => exact fun t' => getG_setC _ _ _ _
+  case hn => exact fun t' ht => heldOf_setC_app_ne _ _ t' ht
+  case hH => exact heldOf_setC_app _ _
+  case hR => exact refsOf_setC_app _ _
+  case hX => grel $hO $hL
+  case h1 => tablesH $hO $hL
+  case h2 => tablesR $hL))
+
+macro "local_step_lis" hO:ident hL:ident : tactic => `(tactic| (
+  subst_vars
+  apply local_of (t := Tid.lis) $hL
+  case hg => exact fun t' => getG_setC _ _ _ _
+  case hn => exact fun t' ht => heldOf_setC_lis_ne _ _ t' ht
+  case hH => exact heldOf_setC_lis _ _
+  case hR => exact refsOf_setC_lis _ _
+  case hX => grel $hO $hL
+  case h1 => tablesH $hO $hL
+  case h2 => tablesR $hL))
+
+
+theorem local_iter_app_lockL {s : State} {p : Proc} {prev nxt : Option Nat} {l : Lbl} {s' : State}
+    (hO : OwnInv s) (hL : Local s) (hpc : s.apc = .iter p .lockL prev nxt)
+    (hs : (l, s') ∈ iterSucc s .app p .lockL prev nxt) : Local s' := by
+  simp only [iterSucc] at hs
+  repeat' (split at hs)
+  all_goals (try simp only [] at hs)
+  all_goals first
+    | (simp at hs; done)
+    | (simp at hs; crack_hyps; all_goals (local_step_app hO hL))
+    | (cases p <;> cases nxt <;> simp [afterNext, finished] at hs <;> crack_hyps <;> local_step_app hO hL)
+
+theorem local_iter_app_incLock {s : State} {p : Proc} {prev nxt : Option Nat} {l : Lbl} {s' : State}
+    (hO : OwnInv s) (hL : Local s) (hpc : s.apc = .iter p .incLock prev nxt)
+    (hs : (l, s') ∈ iterSucc s .app p .incLock prev nxt) : Local s' := by
+  simp only [iterSucc] at hs
+  repeat' (split at hs)
+  all_goals (try simp only [] at hs)
+  all_goals first
+    | (simp at hs; done)
+    | (simp at hs; crack_hyps; all_goals (local_step_app hO hL))
+    | (cases p <;> cases nxt <;> simp [afterNext, finished] at hs <;> crack_hyps <;> local_step_app hO hL)
+
+theorem local_iter_app_incUnlock {s : State} {p : Proc} {prev nxt : Option Nat} {l : Lbl} {s' : State}
+    (hO : OwnInv s) (hL : Local s) (hpc : s.apc = .iter p .incUnlock prev nxt)
+    (hs : (l, s') ∈ iterSucc s .app p .incUnlock prev nxt) : Local s' := by
+  simp only [iterSucc] at hs
+  repeat' (split at hs)
+  all_goals (try simp only [] at hs)
+  all_goals first
+    | (simp at hs; done)
+    | (simp at hs; crack_hyps; all_goals (local_step_app hO hL))
+    | (cases p <;> cases nxt <;> simp [afterNext, finished] at hs <;> crack_hyps <;> local_step_app hO hL)
+
+theorem local_iter_app_unlockL {s : State} {p : Proc} {prev nxt : Option Nat} {l : Lbl} {s' : State}
+    (hO : OwnInv s) (hL : Local s) (hpc : s.apc = .iter p .unlockL prev nxt)
+    (hs : (l, s') ∈ iterSucc s .app p .unlockL prev nxt) : Local s' := by
+  simp only [iterSucc] at hs
+  repeat' (split at hs)
+  all_goals (try simp only [] at hs)
+  all_goals first
+    | (simp at hs; done)
+    | (simp at hs; crack_hyps; all_goals (local_step_app hO hL))
+    | (cases p <;> cases nxt <;> simp [afterNext, finished] at hs <;> crack_hyps <;> local_step_app hO hL)
+
+theorem local_iter_app_decLock {s : State} {p : Proc} {prev nxt : Option Nat} {l : Lbl} {s' : State}
+    (hO : OwnInv s) (hL : Local s) (hpc : s.apc = .iter p .decLock prev nxt)
+    (hs : (l, s') ∈ iterSucc s .app p .decLock prev nxt) : Local s' := by
+  simp only [iterSucc] at hs
+  repeat' (split at hs)
+  all_goals (try simp only [] at hs)
+  all_goals first
+    | (simp at hs; done)
+    | (simp at hs; crack_hyps; all_goals (local_step_app hO hL))
+    | (cases p <;> cases nxt <;> simp [afterNext, finished] at hs <;> crack_hyps <;> local_step_app hO hL)
+
+theorem local_iter_app_decSignal {s : State} {p : Proc} {prev nxt : Option Nat} {l : Lbl} {s' : State}
+    (hO : OwnInv s) (hL : Local s) (hpc : s.apc = .iter p .decSignal prev nxt)
+    (hs : (l, s') ∈ iterSucc s .app p .decSignal prev nxt) : Local s' := by
+  simp only [iterSucc] at hs
+  repeat' (split at hs)
+  all_goals (try simp only [] at hs)
+  all_goals first
+    | (simp at hs; done)
+    | (simp at hs; crack_hyps; all_goals (local_step_app hO hL))
+    | (cases p <;> cases nxt <;> simp [afterNext, finished] at hs <;> crack_hyps <;> local_step_app hO hL)
+
+theorem local_iter_app_decUnlock {s : State} {p : Proc} {prev nxt : Option Nat} {l : Lbl} {s' : State}
+    (hO : OwnInv s) (hL : Local s) (hpc : s.apc = .iter p .decUnlock prev nxt)
+    (hs : (l, s') ∈ iterSucc s .app p .decUnlock prev nxt) : Local s' := by
+  simp only [iterSucc] at hs
+  repeat' (split at hs)
+  all_goals (try simp only [] at hs)
+  all_goals first
+    | (simp at hs; done)
+    | (simp at hs; crack_hyps; all_goals (local_step_app hO hL))
+    | (cases p <;> cases nxt <;> simp [afterNext, finished] at hs <;> crack_hyps <;> local_step_app hO hL)
+
+theorem local_iter_app {s : State} {p : Proc} {st : ISt} {prev nxt : Option Nat} {l : Lbl} {s' : State}
+    (hO : OwnInv s) (hL : Local s) (hpc : s.apc = .iter p st prev nxt)
+    (hs : (l, s') ∈ iterSucc s .app p st prev nxt) : Local s' := by
+  cases st
+  · exact local_iter_app_lockL hO hL hpc hs
+  · exact local_iter_app_incLock hO hL hpc hs
+  · exact local_iter_app_incUnlock hO hL hpc hs
+  · exact local_iter_app_unlockL hO hL hpc hs
+  · exact local_iter_app_decLock hO hL hpc hs
+  · exact local_iter_app_decSignal hO hL hpc hs
+  · exact local_iter_app_decUnlock hO hL hpc hs
+
+theorem local_body_app {s : State} {p : Proc} {k c : Nat} {l : Lbl} {s' : State}
+    (hO : OwnInv s) (hL : Local s) (hpc : s.apc = .body p k c)
+    (hs : (l, s') ∈ bodySucc s .app p k c) : Local s' := by
+  unfold bodySucc at hs
+  split at hs
+  all_goals (try simp only [] at hs)
+  all_goals first
+    | (simp at hs; done)
+    | (simp at hs; crack_hyps; all_goals (local_step_app hO hL))
+
+theorem local_close_app {s : State} {p : Proc} {k : KSt} {c : Nat} {l : Lbl} {s' : State}
+    (hO : OwnInv s) (hL : Local s) (hpc : s.apc = .close p k c)
+    (hs : (l, s') ∈ closeSucc s .app p k c) : Local s' := by
+  unfold closeSucc at hs
+  split at hs
+  all_goals (try unfold storeSt at hs)
+  all_goals (try simp only [] at hs)
+  all_goals (try split at hs)
+  all_goals first
+    | (simp at hs; done)
+    | (simp at hs; crack_hyps; all_goals (local_step_app hO hL))
+
+theorem local_cr_app {s : State} {st : CrSt} {c : Nat} {l : Lbl} {s' : State}
+    (hO : OwnInv s) (hL : Local s) (hpc : s.apc = .cr st c)
+    (hs : (l, s') ∈ crSucc s .app st c) : Local s' := by
+  unfold crSucc at hs
+  split at hs
+  all_goals (try unfold storeSt at hs)
+  all_goals (try simp only [] at hs)
+  all_goals (try split at hs)
+  all_goals first
+    | (simp at hs; done)
+    | (simp at hs; crack_hyps; all_goals (local_step_app hO hL))
+
+theorem local_gone_app {s : State} {g : GSt} {c : Nat} {l : Lbl} {s' : State}
+    (hO : OwnInv s) (hL : Local s) (hpc : s.apc = .gone g c)
+    (hs : (l, s') ∈ goneSucc s .app g c (fun s1 g1 => setC s1 .app (.gone g1 c)) (fun s1 => setC s1 .app (finished .app))) :
+    Local s' := by
+  unfold goneSucc at hs
+  split at hs
+  all_goals (try simp only [] at hs)
+  all_goals (try split at hs)
+  all_goals first
+    | (simp at hs; done)
+    | (simp at hs; crack_hyps; all_goals (local_step_app hO hL))
+
+theorem local_iter_lis {s : State} {p : Proc} {st : ISt} {prev nxt : Option Nat} {l : Lbl} {s' : State}
+    (hO : OwnInv s) (hL : Local s) (hpc : s.lpc = .iter p st prev nxt) (hp : p = .count)
+    (hs : (l, s') ∈ iterSucc s .lis p st prev nxt) : Local s' := by
+  subst hp
+  unfold iterSucc at hs
+  repeat' (split at hs)
+  all_goals (try simp only [] at hs)
+  all_goals first
+    | (simp at hs; done)
+    | (simp at hs; crack_hyps; all_goals (local_step_lis hO hL))
+    | (cases nxt <;> simp [afterNext, finished] at hs <;> crack_hyps <;> local_step_lis hO hL)
+
+theorem local_body_lis {s : State} {p : Proc} {k c : Nat} {l : Lbl} {s' : State}
+    (hO : OwnInv s) (hL : Local s) (hpc : s.lpc = .body p k c) (hp : p = .count)
+    (hs : (l, s') ∈ bodySucc s .lis p k c) : Local s' := by
+  subst hp
+  unfold bodySucc at hs
+  split at hs
+  all_goals (try simp only [] at hs)
+  all_goals first
+    | (simp at hs; done)
+    | (simp at hs; crack_hyps; all_goals (local_step_lis hO hL))
+
+theorem local_cr_lis {s : State} {st : CrSt} {c : Nat} {l : Lbl} {s' : State}
+    (hO : OwnInv s) (hL : Local s) (hpc : s.lpc = .cr st c)
+    (hs : (l, s') ∈ crSucc s .lis st c) : Local s' := by
+  unfold crSucc at hs
+  split at hs
+  all_goals (try unfold storeSt at hs)
+  all_goals (try simp only [] at hs)
+  all_goals (try split at hs)
+  all_goals first
+    | (simp at hs; done)
+    | (simp at hs; crack_hyps; all_goals (local_step_lis hO hL))
+
+theorem local_gone_lis {s : State} {g : GSt} {c : Nat} {l : Lbl} {s' : State}
+    (hO : OwnInv s) (hL : Local s) (hpc : s.lpc = .gone g c)
+    (hs : (l, s') ∈ goneSucc s .lis g c (fun s1 g1 => setC s1 .lis (.gone g1 c)) (fun s1 => setC s1 .lis (finished .lis))) :
+    Local s' := by
+  unfold goneSucc at hs
+  split at hs
+  all_goals (try simp only [] at hs)
+  all_goals (try split at hs)
+  all_goals first
+    | (simp at hs; done)
+    | (simp at hs; crack_hyps; all_goals (local_step_lis hO hL))
+
+theorem local_nf_lockC {s : State} {i : Nat} {l : Lbl} {s' : State}
+    (hO : OwnInv s) (hL : Local s) (hpc : s.apc = .nf .lockC i)
+    (hs : (l, s') ∈ nfSucc s .app .lockC i) : Local s' := by
+  simp only [nfSucc] at hs
+  simp at hs
+  obtain ⟨a, hl, _, rfl⟩ := hs
+  have halk := alk_doLock hl
+  cases hk : s.alk with
+  | nil =>
+    have e : (if a.alk = [] then CPc.nf NSt.unlockC 0 else CPc.nf NSt.lockU 0) = CPc.nf NSt.unlockC 0 := by
+      simp [halk, hk]
+    rw [e]
+    local_step_app hO hL
+  | cons c r =>
+    have h0 : s.alk[0]? = some c := by simp [hk]
+    have e : (if a.alk = [] then CPc.nf NSt.unlockC 0 else CPc.nf NSt.lockU 0) = CPc.nf NSt.lockU 0 := by
+      simp [halk, hk]
+    rw [e]
+    local_step_app hO hL
+
+theorem local_nf_app {s : State} {st : NSt} {i : Nat} {l : Lbl} {s' : State}
+    (hO : OwnInv s) (hL : Local s) (hpc : s.apc = .nf st i)
+    (hs : (l, s') ∈ nfSucc s .app st i) : Local s' := by
+  by_cases hst : st = .lockC
+  · subst hst; exact local_nf_lockC hO hL hpc hs
+  unfold nfSucc at hs
+  repeat' (split at hs)
+  all_goals (try simp only [] at hs)
+  all_goals first
+    | (simp at hs; done)
+    | (exact absurd rfl hst)
+    | (simp at hs; crack_hyps; all_goals (local_step_app hO hL))
+
+theorem local_caller_app {s : State} {l : Lbl} {s' : State} (hO : OwnInv s) (hL : Local s)
+    (hs : (l, s') ∈ callerSucc s .app) : Local s' := by
+  unfold callerSucc at hs
+  simp only [getC] at hs
+  split at hs
+  all_goals first
+    | exact local_iter_app hO hL ‹_› hs
+    | exact local_body_app hO hL ‹_› hs
+    | exact local_close_app hO hL ‹_› hs
+    | exact local_nf_app hO hL ‹_› hs
+    | exact local_cr_app hO hL ‹_› hs
+    | exact local_gone_app hO hL ‹_› hs
+    | skip
+  all_goals (try simp only [] at hs)
+  all_goals (repeat' (split at hs))
+  all_goals first
+    | (simp at hs; done)
+    | (simp at hs; crack_hyps; all_goals (local_step_app hO hL))
+
+theorem local_caller_lis {s : State} {l : Lbl} {s' : State} (hO : OwnInv s) (hL : Local s)
+    (hp : lisPc s.lpc = true) (hs : (l, s') ∈ callerSucc s .lis) : Local s' := by
+  unfold callerSucc at hs
+  simp only [getC] at hs
+  split at hs
+  all_goals first
+    | exact local_iter_lis hO hL ‹_› (by simpa [lisPc, *] using hp) hs
+    | exact local_body_lis hO hL ‹_› (by simpa [lisPc, *] using hp) hs
+    | exact local_cr_lis hO hL ‹_› hs
+    | exact local_gone_lis hO hL ‹_› hs
+    | (exfalso; simp [lisPc, *] at hp; done)
+    | skip
+  all_goals (try simp only [] at hs)
+  all_goals (repeat' (split at hs))
+  all_goals first
+    | (simp at hs; done)
+    | (simp at hs; crack_hyps; all_goals (local_step_lis hO hL))
+
+theorem local_init : Local State.init := by
+  intro t; cases t <;> exact ⟨fun _ => rfl, fun _ => rfl⟩
+
+/-- the thread-local invariant is inductive (given generic invariant 1) -/
+theorem local_step {s s' : State} (hO : OwnInv s) (hL : Local s) (hs : Step s s') : Local s' := by
+  obtain ⟨t, l, hm⟩ := hs
+  cases t with
+  | app => exact local_caller_app hO hL hm
+  | lis =>
+    simp only [succ] at hm
+    split at hm
+    · exact local_caller_lis hO hL ‹_› hm
+    · simp at hm
+  | inp c => exact local_inp hO hL hm
+  | out c => exact local_out hO hL hm
+
+theorem local_reach {s : State} (h : Reach s) : Local s := by
+  induction h with
+  | init => exact local_init
+  | step hr hs ih => exact local_step (ownInv_reach hr) ih hs
 
 end VncModel.Threads
